@@ -20,7 +20,8 @@ Definition descr_eqb : descr -> descr -> bool := eqb_list (eqb_prod String.eqb v
 Definition perr_eqb (a b : perr) : bool :=
   match a, b with
   | KeyError, KeyError | TypeError, TypeError | ValueError, ValueError
-  | AttributeError, AttributeError | OutOfModel, OutOfModel | OtherError, OtherError => true
+  | AttributeError, AttributeError | OutOfModel, OutOfModel | OtherError, OtherError
+  | SerError, SerError => true
   | _, _ => false
   end.
 
@@ -279,3 +280,48 @@ Definition c19_envseq_row (decor : bool) (f_dec : Z) (steps : list (step Z)) (ob
                          end) (transport_seq_id decor f_dec steps) obs;
     true; true; true; true; true; true; true;
     forallb2 ok_envelope_step steps obs ].
+
+(* ---- serialize_obj on callables of every kind ----
+   inputs measured by the harness on the callable itself: does dill.dumps(f) succeed (by
+   value), does dill.dumps(f, byref=True) succeed (by reference), does stdlib pickle
+   round-trip it.  Observed: the outcome of the real serialize_obj + deserialize_obj (error, or
+   "decoded callable gives the same result"), and of the real PythonTask transport. *)
+Definition dumps_of (ok : bool) (f : Z) : option Z := if ok then Some f else None.
+
+Definition serialize_id (val_ok ref_ok : bool) : perr + Z :=
+  serialize_obj Z Z (dumps_of val_ok) (dumps_of ref_ok) 0.
+
+Definition transport_s_id (val_ok ref_ok callable : bool) (args : list atom) (kw : option kwargs) :=
+  transport_s Z Z (envelope Z) (dumps_of val_ok) (dumps_of ref_ok) (fun b => Some b)
+              (fun e => e) (fun w => Some w) callable 0 args kw.
+
+(* encoding succeeds whenever the callable can be represented at all (by value, by
+   reference, or by stdlib pickle), and whatever was encoded decodes to a callable that
+   gives the same result on the same arguments *)
+Definition ok_serialize (val_ok ref_ok pk_ok : bool) (o : perr + bool) : bool :=
+  match o with
+  | inr same => same
+  | inl _ => negb (val_ok || ref_ok || pk_ok)
+  end.
+
+Definition ok_envelope_k (val_ok ref_ok pk_ok callable : bool) (args : list atom) (kw : option kwargs)
+  (o : env_obs) : bool :=
+  match o with
+  | inr _ => ok_envelope callable args kw o
+  | inl _ => negb callable || negb (val_ok || ref_ok || pk_ok)
+  end.
+
+Definition c19_envk_row (val_ok ref_ok pk_ok callable : bool) (args : list atom) (kw : option kwargs)
+  (so : perr + bool) (o : env_obs) : list bool :=
+  [ match serialize_id val_ok ref_ok, so with
+    | inl e, inl e' => perr_eqb e e'
+    | inr _, inr _ => true
+    | _, _ => false
+    end
+    && match transport_s_id val_ok ref_ok callable args kw, o with
+       | inl e, inl e' => perr_eqb e e'
+       | inr (_, a, k), inr (a', k', _) => eqb_list atom_eqb a a' && eqb_option kwargs_eqb k k'
+       | _, _ => false
+       end;
+    true; true; true; true; true; true; true;
+    ok_serialize val_ok ref_ok pk_ok so && ok_envelope_k val_ok ref_ok pk_ok callable args kw o ].
